@@ -329,6 +329,16 @@ theorem otlp_precedence (exp : Exp) (parse : Parse) (e : OtlpEnv) (opts : List U
       cases exp <;> simp_all [Exp.isLog, Exp.isHttp, pathOK, logPath, tmRawPath, Exp.sigPath, clean_traces,
         clean_metrics]
 
+/-- `config_independent_of_other_exporters`: the i-th exporter of a process gets exactly the resolution of its own
+sources, whatever was constructed before or after it, and whatever the environment was at those other construction
+times. NOTE: in the functional model this is immediate (a map over the constructions) — the model has no state shared
+between exporters. The statement is recorded because the property says "each exporter takes each setting from the
+highest-precedence source that provides it" for THAT exporter; it is tied to the code by the two-exporter scenarios of
+the end-to-end leg (roles C/D), where package-level shared state (seeded change C20-9) would show. -/
+theorem config_independent_of_other_exporters (parse : Parse) (before after : List Construction) (c : Construction) :
+    (constructAll parse (before ++ c :: after))[before.length]? = some (newConfig c.exp parse c.env c.opts) := by
+  simp [constructAll]
+
 /-! ## non-vacuity -/
 
 /-- all three sources present for the BSP sizes: the option wins for the queue, the environment batch size is reconciled -/
